@@ -860,11 +860,9 @@ def regenerate_dispatch(ast=None):
 
 # ------------------------------------------------------------------------------------ T7
 # the field-assignment helpers (`reset_state`, `prepare_search_command`, `start_flush_io_buffer*`,
-# `enable_hold_state`, `prepare_parse_command`, ...) as Lean record updates: Gen/Setters.lean.
-# `Proofs/Setters.lean` proves the model's functions equal to them (ghost events aside).
+# `enable_hold_state`, `prepare_parse_command`, ...) as Lean record updates: Gen/Setters/<Module>.lean.
+# `Proofs/Setters/<Module>.lean` proves the model's functions equal to them (ghost events aside).
 
-GEN_SETTERS = os.path.join(lib.LEAN, "CatVerif/Gen/Setters.lean")
-EXPECTED_SETTERS = os.path.join(lib.LEAN, "CatVerif/Gen/Setters.expected.lean")
 
 # C member path -> (model field, kind)
 FIELD = {"state": ("state", "cstate"), "cr_flag": ("crFlag", "bool"), "hold_state_flag": ("holdFlag", "bool"),
@@ -1000,45 +998,25 @@ def _setter_stmts(sts, params, consts, ind):
     return out
 
 
-def t7(ast):
+def t7(ast, names=None):
     _, ev = enums(ast)
     defs = []
     for name, params in SETTERS:
+        if names is not None and name not in names:
+            continue
         _, body = find_fn(ast, name)
         consts = dict(ev)
         lines = _setter_stmts(body.get("inner", []), params, consts, "  ")
         sig = "def %s (D : Desc) (s : St)%s : St :=" % (name, " (a : After)" if params else "")
         defs.append("/-- `%s` of src/cat.c -/\n%s\n%s\n  s" % (name, sig, "\n".join(lines)))
-    hdr = ("/-\n  GENERATED by tools/translate.py from the field-assignment helpers of src/cat.c (T7). Do not edit.\n"
-           "  `Proofs/Setters.lean` proves the model's functions equal to these.\n-/\n"
-           "import CatVerif.Model.Fsm\nnamespace Cat.Gen\nopen Cat St\nset_option linter.unusedVariables false\n\n")
-    return hdr + "\n\n".join(defs) + "\n\nend Cat.Gen\n"
-
-
-def regenerate_setters(ast=None):
-    try:
-        txt = t7(ast or load_ast())
-        status = "translated"
-    except Exception as ex:
-        if not os.path.exists(EXPECTED_SETTERS):
-            return {"T7": "failed: " + repr(ex)[:200]}
-        txt = open(EXPECTED_SETTERS).read()
-        status = "fallback to expected text: " + repr(ex)[:200]
-    with lib.Lock("gen"):
-        old = open(GEN_SETTERS).read() if os.path.exists(GEN_SETTERS) else ""
-        if old != txt:
-            with open(GEN_SETTERS, "w") as f:
-                f.write(txt)
-    return {"T7": status}
+    return defs
 
 
 # ------------------------------------------------------------------------------------ T8
 # the line-framing state functions: guarded read, `switch (self->current_char)`, arms made of field
 # assignments, `self->length++`, calls of void helpers and early `break`s under a condition:
-# Gen/Readers.lean.  `Proofs/Readers.lean` proves the model's functions equal to them.
+# Gen/Readers/<Module>.lean.  `Proofs/Readers/<Module>.lean` proves the model's functions equal to them.
 
-GEN_READERS = os.path.join(lib.LEAN, "CatVerif/Gen/Readers.lean")
-EXPECTED_READERS = os.path.join(lib.LEAN, "CatVerif/Gen/Readers.expected.lean")
 READERS = ["error_state", "process_idle_state", "parse_prefix", "parse_command", "wait_read_acknowledge", "wait_test_acknowledge"]
 READER_SIG = {"process_idle_state": "(D : Desc) (s : St) (i : SvcIn)"}
 VOID_CALL = {"ack_error": "ackError D s", "ack_ok": "ackOk D s", "prepare_parse_command": "prepareParseCommand D s",
@@ -1102,9 +1080,9 @@ def _arm_expr(sts, ind):
     raise Unrecognised("T8: unrecognised statement (%s)" % k)
 
 
-def t8(ast):
+def t8(ast, names=None):
     defs = []
-    for name in READERS:
+    for name in (names or READERS):
         _, body = find_fn(ast, name)
         if not _guarded_read_first(body):
             raise Unrecognised("T8: %s does not start with the guarded read" % name)
@@ -1134,27 +1112,7 @@ def t8(ast):
         defs.append("/-- `%s` of src/cat.c -/\ndef %s (D : Desc) (s : St) (i : SvcIn) : St × Int :=\n"
                     "  let (s, got) := readCmdChar s i\n  if !got then (s, Gen.CAT_STATUS_OK)\n  else\n  let s : St :=\n%s\n  (s, Gen.CAT_STATUS_BUSY)"
                     % (name, name, body_txt))
-    hdr = ("/-\n  GENERATED by tools/translate.py from the character-dispatching state functions of src/cat.c (T8). Do not edit.\n"
-           "  `Proofs/Readers.lean` proves the model's functions equal to these.\n-/\n"
-           "import CatVerif.Model.Fsm\nnamespace Cat.Gen\nopen Cat St\nset_option linter.unusedVariables false\n\n")
-    return hdr + "\n\n".join(defs) + "\n\nend Cat.Gen\n"
-
-
-def regenerate_readers(ast=None):
-    try:
-        txt = t8(ast or load_ast())
-        status = "translated"
-    except Exception as ex:
-        if not os.path.exists(EXPECTED_READERS):
-            return {"T8": "failed: " + repr(ex)[:200]}
-        txt = open(EXPECTED_READERS).read()
-        status = "fallback to expected text: " + repr(ex)[:200]
-    with lib.Lock("gen"):
-        old = open(GEN_READERS).read() if os.path.exists(GEN_READERS) else ""
-        if old != txt:
-            with open(GEN_READERS, "w") as f:
-                f.write(txt)
-    return {"T8": status}
+    return defs
 
 
 # ------------------------------------------------------------------------------------ T9
@@ -2691,47 +2649,61 @@ STEP_MODULES = [
     ("Loops", "T19", ("C06", "C10", "C14"), lambda ast: t19(ast)),
     ("CmdList", "T14/T20", ("C10", "C19"), lambda ast: t14_list(ast) + t20(ast)),
 ]
-GEN_STEPS_DIR = os.path.join(lib.LEAN, "CatVerif/Gen/Steps")
+SETTER_MODULES = [
+    ("Reset", "T7", ("C01", "C14", "C20"), lambda ast: t7(ast, ["reset_state", "unsolicited_reset_state"])),
+    ("Prepare", "T7", ("C02", "C20"), lambda ast: t7(ast, ["prepare_search_command", "prepare_parse_command"])),
+    ("Flush", "T7", ("C11", "C20"), lambda ast: t7(ast, ["start_flush_io_buffer", "unsolicited_start_flush_io_buffer", "start_flush_io_buffer_raw"])),
+    ("HoldSet", "T7", ("C14", "C20"), lambda ast: t7(ast, ["enable_hold_state"])),
+]
+READER_MODULES = [
+    ("Frame", "T8", ("C01", "C20"), lambda ast: t8(ast, ["error_state", "process_idle_state", "parse_prefix"])),
+    ("Name", "T8", ("C01", "C02", "C20"), lambda ast: t8(ast, ["parse_command"])),
+    ("Ack", "T8", ("C02", "C20"), lambda ast: t8(ast, ["wait_read_acknowledge", "wait_test_acknowledge"])),
+]
+MODULE_GROUPS = [("Steps", "steps", STEP_MODULES), ("Setters", "setters", SETTER_MODULES), ("Readers", "readers", READER_MODULES)]
 
 
 def step_module_props():
-    return {"steps." + m: set(props) for m, _, props, _ in STEP_MODULES}
+    return {"%s.%s" % (key, m): set(props) for _, key, mods in MODULE_GROUPS for m, _, props, _ in mods}
 
 
-def regenerate_steps(ast=None):
+def regenerate_modules(ast=None):
     rep = {}
+    err = ""
     try:
         ast = ast or load_ast()
     except Exception as ex:
         ast = None
         err = repr(ex)[:200]
-    os.makedirs(GEN_STEPS_DIR, exist_ok=True)
-    for mod, items, _props, produce in STEP_MODULES:
-        path = os.path.join(GEN_STEPS_DIR, mod + ".lean")
-        exp = os.path.join(GEN_STEPS_DIR, mod + ".expected.lean")
-        try:
-            if ast is None:
-                raise Unrecognised(err)
-            defs = produce(ast)
-            hdr = ("/-\n  GENERATED by tools/translate.py from functions of src/cat.c (translator item %s). Do not edit.\n"
-                   "  `Proofs/Steps/%s.lean` proves the model's functions equal to these.\n-/\n"
-                   "import CatVerif.Model.Fsm\nnamespace Cat.Gen\nopen Cat St\nset_option linter.unusedVariables false\n\n" % (items, mod))
-            txt = hdr + "\n\n".join(defs) + "\n\nend Cat.Gen\n"
-            status = "translated"
-        except Exception as ex:
-            VOID_FN_MODE[0] = False
-            RETMAP[0] = None
-            if not os.path.exists(exp):
-                rep["steps." + mod] = "failed: " + repr(ex)[:200]
-                continue
-            txt = open(exp).read()
-            status = "fallback to expected text: " + repr(ex)[:200]
-        with lib.Lock("gen"):
-            old = open(path).read() if os.path.exists(path) else ""
-            if old != txt:
-                with open(path, "w") as f:
-                    f.write(txt)
-        rep["steps." + mod] = status
+    for dirname, key, modules in MODULE_GROUPS:
+        gdir = os.path.join(lib.LEAN, "CatVerif/Gen", dirname)
+        os.makedirs(gdir, exist_ok=True)
+        for mod, items, _props, produce in modules:
+            path = os.path.join(gdir, mod + ".lean")
+            exp = os.path.join(gdir, mod + ".expected.lean")
+            try:
+                if ast is None:
+                    raise Unrecognised(err)
+                defs = produce(ast)
+                hdr = ("/-\n  GENERATED by tools/translate.py from functions of src/cat.c (translator item %s). Do not edit.\n"
+                       "  `Proofs/%s/%s.lean` proves the model's functions equal to these.\n-/\n"
+                       "import CatVerif.Model.Fsm\nnamespace Cat.Gen\nopen Cat St\nset_option linter.unusedVariables false\n\n" % (items, dirname, mod))
+                txt = hdr + "\n\n".join(defs) + "\n\nend Cat.Gen\n"
+                status = "translated"
+            except Exception as ex:
+                VOID_FN_MODE[0] = False
+                RETMAP[0] = None
+                if not os.path.exists(exp):
+                    rep["%s.%s" % (key, mod)] = "failed: " + repr(ex)[:200]
+                    continue
+                txt = open(exp).read()
+                status = "fallback to expected text: " + repr(ex)[:200]
+            with lib.Lock("gen"):
+                old = open(path).read() if os.path.exists(path) else ""
+                if old != txt:
+                    with open(path, "w") as f:
+                        f.write(txt)
+            rep["%s.%s" % (key, mod)] = status
     return rep
 
 
@@ -2794,9 +2766,7 @@ def regenerate():
                 f.write(txt)
     exp = open(EXPECTED).read() if os.path.exists(EXPECTED) else ""
     rep.update(regenerate_dispatch())
-    rep.update(regenerate_setters())
-    rep.update(regenerate_readers())
-    rep.update(regenerate_steps())
+    rep.update(regenerate_modules())
     fall = {k: v for k, v in rep.items() if not v.startswith("translated")}
     return {"status": "ok", "changed_vs_expected": txt != exp, "fallbacks": fall, "items": len(rep),
             "sha": hashlib.sha256(txt.encode()).hexdigest()[:12]}
